@@ -4,7 +4,7 @@ from session_common import *
 ID = 'C01'
 COQ_TARGETS = ['Props/Properties_C01.vo', 'Props/Properties_C01t.vo']
 PROPS_FILES = ['Props/Properties_C01.v', 'Props/Properties_C01t.v']
-THEOREMS = ['C01_remote_rcpt_needs_relay', 'C01_auth_only_from_backend', 'C01_envelope_is_accepted_only',
+THEOREMS = ['C01_remote_rcpt_needs_relay', 'C01_submission_needs_entitlement', 'C01_auth_only_from_backend', 'C01_envelope_is_accepted_only',
             'C01t_verify_positive_only_if', 'C01t_verify_complete', 'C01t_embedded_nul_never_matches', 'C01t_fails_closed',
             'C01t_tlsclient_set_exactly_then', 'C01t_checked_once', 'C01t_no_retry', 'C01t_check_at_most_once',
             'C01t_error_never_entitles', 'C01t_relayclient_only_if', 'C01t_is_authenticated_positive_only_if',
@@ -15,7 +15,7 @@ ENGINES = [ENGINE, TLSVERIFY]
 RULE = ('sessions aimed at the relay decision: relayclients / relayclients6 absent, listing the client, listing another network, with a size that is not a '
         'multiple of the record size, with an invalid prefix length, unreadable; IPv4-mapped and IPv6 clients; remote recipients before and after local ones, '
         'repeated after an error, across RSET and several transactions; AUTH PLAIN attempts (right and wrong password, malformed, unknown mechanism, backend crash, '
-        'repeated, inside a transaction, with and without a configured backend) mixed with HELO/EHLO/RSET and remote recipients; plus the general session histories. non-trivial = a remote recipient was attempted '
+        'repeated, inside a transaction, with and without a configured backend) mixed with HELO/EHLO/RSET and remote recipients; the same and dedicated histories on the submission port 587 (MAIL FROM before / after / without AUTH, after a failed AUTH, repeated after a refusal, every kind of relay list, missing "<"); plus the general session histories. non-trivial = a remote recipient was attempted '
         'and a DATA was accepted, or a hand-off happened; distinct by case text. '
         'Engine tlsverify (unit: tls_verify / tls_check_cert / is_authenticated with OpenSSL and the file system as scripted oracles): sequences of 1-6 calls, '
         'each the all-succeeds configuration with 0-3 oracles turned (no TLS, AUTH name set, relay list absent/listed/error, tlsclients unreadable with several errno '
@@ -52,7 +52,7 @@ LEVEL_TEXT = ('Coq theorems for all oracles and all client byte streams: a recip
               'relayclient is set to 2 before the result is inspected and the cached decision is 1 only after a positive lookup (invariant Irel); an AUTH note '
               'appears only where a backend is configured and the mechanism handler reported success for that name; every hand-off envelope consists of '
               'accepted recipients only. Tied to the binary by whole-program runs with all kinds of relay list for v4 and v6 clients and AUTH PLAIN attempts '
-              'against a checkpassword stand-in.')
+              'against a checkpassword stand-in. On the submission port (TCPLOCALPORT 587) MAIL FROM itself gets its 250 only from a client with that same entitlement (C01_submission_needs_entitlement): smtp_from calls the same is_authenticated(), with the same cache and the same fail-closed treatment of a broken list.')
 LEVEL_TEXT += (' Third entitlement (engine tlsverify, theorems C01t_*): for all oracle values, start states and call sequences tls_verify() > 0 only if TLS is '
                'active, the check has not run on this connection, tlsclients gave a list, the CA file loaded, the session id context was set, the rehandshake '
                'succeeded, the verification result is X509_V_OK, a certificate is present and its emailAddress (only without one: commonName) equals an entry of '
@@ -227,4 +227,13 @@ def gen_cases(engine, rng, tier):
     for _ in range(n):
         cfg = 'relay=%s;ip=%s;databytes=0;qq=ok,ok,ok,ok' % (rng.choice(['none', 'listed', 'unlisted', 'badsize', 'badprefix', 'unreadable']), rng.choice(['v4', 'v6']))
         out.append(session_gen.case(cfg, relay_session(rng)))
+    # the submission port (587): MAIL FROM itself needs the entitlement
+    for _ in range(n // 2):
+        cfg, chunks = session_gen.subm_gate_session(rng)
+        out.append(session_gen.case(cfg, chunks))
+    for _ in range(n // 6):
+        # the same histories with the relay / AUTH sessions of above, on port 587
+        cfg = 'relay=%s;ip=%s;databytes=0;qq=ok,ok,ok,ok;auth=%s;port=587' % (rng.choice(['none', 'listed', 'unlisted', 'badsize', 'badprefix', 'unreadable']), rng.choice(['v4', 'v6']),
+                                                                               rng.choice(['1', '1', '0']))
+        out.append(session_gen.case(cfg, session_gen.auth_session(rng) if rng.random() < 0.6 else relay_session(rng)))
     return out + session_gen.gen(rng, 200 if tier == 'quick' else 4000)
